@@ -22,7 +22,7 @@ CLAIMED = {
   "C11": "ChannelData encode/decode for all 2^16 numbers and payload lengths 0..65535, decode-iff-wellformed on arbitrary raw buffers, clean padding on re-encode; all eleven TURN attribute codecs round-trip over their whole domains and reject every wrong-sized raw value (0..24 bytes).",
   "C12": "Client transactions on the real Client/Transaction code with goroutines as cooperative threads: 7 transmissions at RTO, doubling, capped 1.6 s for every RTO in (0,1.6 s]; completion exactly once by the response with the matching id (any id symbolic), duplicates/strangers ignored; Close and write errors release the caller; fire-and-forget failures and first-write errors leave nothing in the table; completions only under the table lock; every schedule of 7 (9) events from {timer callback incl. late ones, matching response incl. duplicates, foreign response, Close}: the caller is released exactly once exactly when due, one transmission per elapsed interval, nothing afterwards; the response arriving while a retransmission is inside the socket write.",
   "C13": "Relayed socket: data only after a CreatePermission success (all server reactions, up to 3 attempts), ChannelData only on a binding the server confirmed for that exact peer/number (also after repeated lost binds), own number per peer in range; ReadFrom returns queued payloads unchanged, honours deadline (also one set while a reader is blocked) and Close (repeatedly, also when the deallocating Refresh cannot be sent); inbound queues never block.",
-  "C14": "Compositional (weaker than the other claims, see DESIGN.md C14): solver-checked ingredients on the real code - refresh intervals wired by NewUDPConn for all configurations, PeriodicTimer re-arms the full interval every round and stops cleanly (goroutine as cooperative thread), allocation / permission / binding refresh rounds (438 retry with the new nonce, every peer named, refresh iff older than the refresh age), Close stops the timers and sends Refresh(0), and the schedule inequality period + 3 transactions + jitter < server timeout from the constants in the code.",
+  "C14": "Compositional (weaker than the other claims, see DESIGN.md C14): solver-checked ingredients on the real code - refresh intervals wired by NewUDPConn for all configurations, PeriodicTimer re-arms the full interval every round and stops cleanly (goroutine as cooperative thread), allocation / permission / binding refresh rounds (438 retry with the new nonce, every peer named, refresh iff older than the refresh age), Close stops the timers and sends Refresh(0), and the schedule inequality period + 3 transactions + jitter < server timeout from the constants in the code. In addition a co-simulation of the real relayed socket (with its periodic-timer goroutines) against the real server handlers on one virtual clock (library default cadences, lifetimes 2 min / 10 min / 1 h, hourly nonce expiry, idle client or two peers, up to 2 h of protocol time; timing concrete, data symbolic): server-side state never lapses, data still flows after silence, Close removes the allocation. Known finding close-with-stale-nonce (genuine, recorded): Close with a stale nonce leaves the allocation until it expires.",
   "C15": "Teardown balance: after expiry, DeleteAllocation, relay/listener failure or Manager.Close every socket is closed exactly once, every timer stopped, tables empty (also with three bindings), created/deleted events pair up, repeated deletes release and report nothing, failed Allocate/Connect (UDP and TCP transport) and EVEN-PORT probing leave nothing open or registered, nothing is released by something that does not own it.",
   "C16": "TCP relay connection table and handlers: ids unique (also across allocations), bind succeeds iff right id and owner and only once, refused binds consume nothing and leave the deadline running, 30 s deadline armed and effective, Connect error mapping 403/446/447 (446 also when the peer is named in IPv4-mapped form), inbound connections need a permission, ConnectionBind starts both copy directions and cleans up; the manager lock is free on every path. Byte piping on the real io.Copy loops as goroutines over harness-driven streams: chunks in flight in both directions at once arrive unmodified, once and in order, and the end of either side closes both connections and forgets the id.",
   "C17": "Both credential generators against the matching handlers with clock, duration, secret, user (also containing ':') and realm symbolic (IA arithmetic): accepted at every instant up to the expiry time, rejected from one second after it, also on repeated validation; the returned key is the same term as GenerateAuthKey(username, realm, generated password); non-numeric usernames rejected. HMAC/MD5/base64 are uninterpreted functions.",
